@@ -85,6 +85,7 @@ impl Check for C01 {
             preexisting: true,
             clock_small: true,
             sampled_faults: true,
+            clock_jump: false,
             debris: true,
             focus: 4,
         };
@@ -164,6 +165,7 @@ impl Check for C05 {
             preexisting: true,
             clock_small: true,
             sampled_faults: false,
+            clock_jump: false,
             debris: true,
             focus: 2,
         };
@@ -233,11 +235,11 @@ impl Check for C06 {
         "C06"
     }
     fn rule(&self) -> String {
-        "the C01/C05 generator (own and shared handles, capacities 0..huge, plain/sharded/stacked) is run to a drawn prefix length (1-120 filesystem steps); from that state one participant is scheduled ALONE until its current operation returns while every other participant stays frozen forever at the call it had announced (variant: the others are killed). Oracle: the survivor's operation returns Ok with valid content within a bound on its own filesystem steps (500 + 40 x directory entries + 40 x value chunks: generous constants, the statement fixes only the shape), the run is neither blocked (watchdog: no progress outside a filesystem call for 10 s) nor a runaway (60 000 steps), and no lock primitive (flock/lockf/fcntl/File::lock*) is ever called. Non-trivial = at least one peer was frozen in the middle of an operation; distinct = (survivor's operation, the frozen peers' pending call kinds, configuration)".to_string()
+        "the C01/C05 generator (own and shared handles, capacities 0..huge, plain/sharded/stacked; one operation in seven is a set/put whose source path names no file, which must fail within the bound) is run to a drawn prefix length (1-120 filesystem steps); from that state one participant is scheduled ALONE until its current operation returns while every other participant stays frozen forever at the call it had announced (variant: the others are killed). Oracle: the survivor's operation returns Ok with valid content within a bound on its own filesystem steps (500 + 40 x directory entries + 40 x value chunks: generous constants, the statement fixes only the shape), the run is neither blocked (watchdog: no progress outside a filesystem call for 10 s) nor a runaway (60 000 steps), and no lock primitive (flock/lockf/fcntl/File::lock*) is ever called. Non-trivial = at least one peer was frozen in the middle of an operation; distinct = (survivor's operation, the frozen peers' pending call kinds, configuration)".to_string()
     }
     fn runs(&self, tier: Tier) -> u64 {
         match tier {
-            Tier::Quick => 25_000,
+            Tier::Quick => 80_000,
             Tier::Thorough => 1_000_000,
         }
     }
@@ -249,7 +251,7 @@ impl Check for C06 {
             max_parts: 3,
             max_ops: 3,
             max_keys: 2,
-            ops: vec!["get", "set", "put", "ensure", "gou", "touch"],
+            ops: vec!["get", "set", "put", "ensure", "gou", "touch", "get", "set", "put", "ensure", "gou", "touch", "set_missing", "put_missing"],
             adversary: false,
             stale_mode: false,
             freeze: !kill,
@@ -260,6 +262,7 @@ impl Check for C06 {
             preexisting: true,
             clock_small: true,
             sampled_faults: false,
+            clock_jump: false,
             debris: true,
             focus: 4,
         };
@@ -288,7 +291,7 @@ impl Check for C06 {
             out.sig = mix(out.sig, hash_str(&pending.join(",")));
             // the survivor's operations
             let entries: usize = run.w.with_fs(|fs| run.w.dirs.iter().map(|d| fs.tree(&d.path).len()).sum());
-            let max_len = run.results.iter().filter_map(|r| match &r.op { Op::Set { plen, .. } | Op::Put { plen, .. } | Op::SetTemp { plen, .. } | Op::PutTemp { plen, .. } | Op::Ensure { plen, .. } | Op::GetOrUpdate { plen, .. } => Some(*plen), _ => None }).max().unwrap_or(0);
+            let max_len = run.results.iter().filter_map(|r| match &r.op { Op::Set { plen, .. } | Op::Put { plen, .. } | Op::SetTemp { plen, .. } | Op::PutTemp { plen, .. } | Op::Ensure { plen, .. } | Op::GetOrUpdate { plen, .. } => Some(*plen), _ => None }).filter(|l| *l != MISSING_SOURCE).max().unwrap_or(0);
             let chunks = max_len / run.w.chunk.min(8192) + 2;
             // generous constants: the statement fixes the shape (constant, or linear
             // in the directory entries plus the value's chunks), not the factors
@@ -302,6 +305,8 @@ impl Check for C06 {
                 }
                 if let Some(p) = &r.panic {
                     v = Some(Violation::new("solo-panic", format!("running alone with its peers frozen, the operation panicked: {} ({})", r.short(), p)));
+                } else if r.out.is_err() && matches!(&r.op, Op::Set { plen, .. } | Op::Put { plen, .. } if *plen == MISSING_SOURCE) {
+                    // expected: the source names no file (bounded failure)
                 } else if r.out.is_err() {
                     v = Some(Violation::new("solo-error", format!("running alone with its peers frozen, the operation failed: {}", r.short())));
                 } else if let Ok(Out::Hit { data, .. }) = &r.out {
@@ -325,6 +330,9 @@ impl Check for C06 {
             for r in run.results.iter().filter(|r| r.proc != cp) {
                 if v.is_some() {
                     break;
+                }
+                if r.out.is_err() && r.panic.is_none() && matches!(&r.op, Op::Set { plen, .. } | Op::Put { plen, .. } if *plen == MISSING_SOURCE) {
+                    continue;
                 }
                 if r.panic.is_some() || r.out.is_err() {
                     v = Some(Violation::new("peer-death", format!("a peer was killed and the operation failed: {}", r.short())));
@@ -447,7 +455,7 @@ impl Check for C04 {
         "C04"
     }
     fn rule(&self) -> String {
-        "one plain cache directory (raw plain::Cache or Cache over a plain writer), eviction out of play (huge capacity, trigger scripted never to fire), 2-3 participants with own or shared handles, 1-3 operations each from {set(v), put(v), get, touch, ensure(v)} on one key (a second key in some runs), optional pre-existing value, unique value per write. Each operation records invoke/return stamps from the simulator's global step counter (total order, no ties). Oracle: an exact Wing-Gong search for a linearization against the sequential register (set: state:=v; put: state:=v if absent; get returns state; touch returns presence); ensure is NOT assumed atomic: it is the program-ordered atoms get; if miss {put(v); get} sharing the call's interval. Histories have <= 9 operations, so the search is exact. Non-trivial = at least two operations on the same key overlapped in time and one of them was a write; distinct = hash of (operation multiset, result vector, real-time order)".to_string()
+        "one plain cache directory (raw plain::Cache or Cache over a plain writer), eviction out of play (huge capacity, trigger scripted never to fire), 2-3 participants with own or shared handles, 1-3 operations each from {set(v), put(v), get, touch, ensure(v)} on one key (a second key in some runs), optional pre-existing value, unique value per write; in a third of the runs maintenance fires on every write (cleaning the temporary directory, never evicting) and in a third everybody stalls once for two hours, so that a writer's staged file can be reclaimed under its feet (such a write fails, which is documented; what it must not do is report success without effect). Each operation records invoke/return stamps from the simulator's global step counter (total order, no ties). Oracle: an exact Wing-Gong search for a linearization against the sequential register (set: state:=v; put: state:=v if absent; get returns state; touch returns presence); ensure is NOT assumed atomic: it is the program-ordered atoms get; if miss {put(v); get} sharing the call's interval. Histories have <= 9 operations, so the search is exact. Non-trivial = at least two operations on the same key overlapped in time and one of them was a write; distinct = hash of (operation multiset, result vector, real-time order)".to_string()
     }
     fn runs(&self, tier: Tier) -> u64 {
         match tier {
@@ -467,12 +475,15 @@ impl Check for C04 {
             stale_mode: false,
             freeze: false,
             crash: false,
-            fire: vec![DrawPolicy::Const(u64::MAX)],
+            // maintenance may run (it cleans the temporary directory) but never
+            // evicts: the capacity is out of reach
+            fire: vec![DrawPolicy::Const(u64::MAX), DrawPolicy::Const(u64::MAX), DrawPolicy::Const(1)],
             allow_shared_handle: true,
             missing_dirs: true,
             preexisting: true,
             clock_small: true,
             sampled_faults: false,
+            clock_jump: true,
             debris: true,
             focus: 4,
         };
